@@ -354,43 +354,22 @@ def read_raw_file(file_in, iter=False):
 #TODO: check impact of having gradient ([i,j,k]) and/not cost
 def read_import(file, *targets):
   "import the targets; targets are name strings"
-  import re, os, sys
-  _dir, file = os.path.split(file)
-  file = re.sub(r'\.py*.$', '', file) #XXX: strip .py* extension
-  curdir = os.path.abspath(os.curdir)
-  sys.path.append('.')
-  results = []
-  globals = {}
+  import re, os, types
+  _dir, name = os.path.split(file)
+  name = re.sub(r'\.py*.$', '', name) #XXX: strip .py* extension
+  if _dir and not os.path.isdir(_dir):
+    raise RuntimeError('File: {0} not found'.format(name))
+  path = os.path.join(_dir, name + '.py')
+  #NOTE: read the given file on each call (not sys.path, or a cached module)
   try:
-    if _dir: os.chdir(_dir)
-    if len(targets):
-      for target in targets:
-        code = "from {0} import {1} as result".format(file, target)
-        code = compile(code, '<string>', 'exec')
-        try:
-            exec(code, globals)
-        except ModuleNotFoundError:
-            raise RuntimeError('Module: {0} not found'.format(file))
-        except ImportError:
-            globals['result'] = None #XXX: or throw error?
-        results.append(globals['result'])
-    else:
-        code = "import {0} as result".format(file)
-        code = compile(code, '<string>', 'exec')
-        try:
-            exec(code, globals)
-        except ModuleNotFoundError:
-            raise RuntimeError('Module: {0} not found'.format(file))
-        except ImportError:
-            globals['result'] = None #XXX: or throw error?
-        results.append(globals['result'])
+    with open(path) as f: code = f.read()
   except FileNotFoundError:
-    raise RuntimeError('File: {0} not found'.format(file))
-  finally:
-    if _dir: os.chdir(curdir)
-    sys.path.pop()
-    sys.modules.pop(file, None) #NOTE: read the current file on each call
-  if not len(results): return None
+    raise RuntimeError('Module: {0} not found'.format(name))
+  module = types.ModuleType(name)
+  module.__file__ = path
+  exec(compile(code, path, 'exec'), module.__dict__)
+  if not len(targets): return module
+  results = [getattr(module, target, None) for target in targets]
   return results[-1] if (len(results) == 1) else results
 
 def read_converge_file(file_in, iter=False):
